@@ -60,15 +60,16 @@ OTHER_ITEMS = ["union X { a: u8, b: u16 }", "fn f() {}", "trait T {}", "mod m {}
                "enum X { A = 1, B = isize::MAX }", "#[default(match 0u8 { _ => X(1) } + X(2))] struct X(u8);", "#[default(if true { 1 } else { 2 } == 1)] enum X { A, B }", "#[default({ X(1) } + X(2))] struct X(u8);",
                "struct X(#[partial_eq(key = len.$())] String);", "struct X(#[ord(key = ::$.len())] String);", "struct X(#[eq(key = S { $ })] String);", "struct X(#[hash(key = Default.$)] String);", "struct X(#[partial_eq(by = $)] u8);", "#[default(let x = 1)] struct X(u8);",
                "struct X(dyn Tr + Send);", "struct X<'a>(dyn Tr + Send + 'a);", "struct X { a: u32, t: dyn Tr + Send }", "struct X(impl Tr + Send);", "struct X(dyn Tr);",
-               "impl Add<dyn A + B> for X { type Output = X; fn add(self, r: dyn A + B) -> X { self } }", "impl Sub<i32> for dyn A + Send { type Output = i32; fn sub(self, r: i32) -> i32 { r } }", "impl Add<> for X { type Output = X; fn add(self, r: X) -> X { self } }", "impl Add for X { #![allow(clippy::suspicious_arithmetic_impl)] type Output = X; fn add(self, r: X) -> X { self } }",
+               "impl Add<dyn A + B> for X { type Output = X; fn add(self, r: dyn A + B) -> X { self } }", "impl Sub<i32> for dyn A + Send { type Output = i32; fn sub(self, r: i32) -> i32 { r } }", "impl Add<X> for dyn* A + B { type Output = X; fn add(self, r: X) -> X { r } }", "impl Sub<dyn* A + B> for &X { type Output = X; fn sub(self, r: dyn* A + B) -> X { X } }", "impl Sub<&Self> for dyn* A { type Output = Self; fn sub(self, r: &Self) -> Self { self } }",
+               "impl Add<> for X { type Output = X; fn add(self, r: X) -> X { self } }", "impl Add for X { #![allow(clippy::suspicious_arithmetic_impl)] type Output = X; fn add(self, r: X) -> X { self } }",
                "#[allow(unused)] impl SubAssign<&X> for X { #![deny(unused)] #![doc = \"d\"] fn sub_assign(&mut self, r: &X) {} }", "#[expect(unused)] #[forbid(unsafe_code)] impl Shl<u8> for &X { #![warn(missing_docs)] type Output = X; fn shl(self, r: u8) -> X { X } }", "impl core::ops::Sub<> for &X { type Output = X; fn sub(self, r: &X) -> X { X } }", "impl Add<'a> for X { type Output = X; fn add(self, r: X) -> X { self } }", "impl Add<Output = X> for X { type Output = X; fn add(self, r: X) -> X { self } }", "struct X<const N: usize>([u8; N]);", "pub(in self) struct X;", "struct X where;", "struct X<T,>(T,);", "macro_rules! m { () => {} }", "struct X(#[cfg(any())] u8, u16);"]
 
 
 def impl_items(rng, n):
     """syntactically valid operator impl items, including shapes rustc itself would reject later (`Self` inside the self type, missing
     Output, foreign items in the body): expansion must still terminate with items or a compile_error!"""
-    SELF_TY = ["X", "dyn Tr + Send", "&X", "&'a X", "X<T>", "&X<T>", "W<Self>", "Box<Self>", "(X, Self)", "[Self; 2]", "Self", "&Self", "<X as Tr>::A", "fn(Self) -> X", "dyn Tr<Self>", "X<{ 1 + 2 }>", "!", "()"]
-    RHS = ["", "<>", "<'a>", "<Output = X>", "<{ 1 }>", "<dyn Tr + Send>", "<impl Tr + Tr2>", "<Self>", "<&Self>", "<u8>", "<&X>", "<Vec<Self>>", "<&'a Self>", "<Option<&Self>>", "<<Self as Tr>::A>", "<Self, Self>", "<[Self; 3]>"]
+    SELF_TY = ["X", "dyn Tr + Send", "dyn* Tr + Send", "dyn* Tr", "&X", "&'a X", "X<T>", "&X<T>", "W<Self>", "Box<Self>", "(X, Self)", "[Self; 2]", "Self", "&Self", "<X as Tr>::A", "fn(Self) -> X", "dyn Tr<Self>", "X<{ 1 + 2 }>", "!", "()"]
+    RHS = ["", "<dyn* Tr + Send>", "<>", "<'a>", "<Output = X>", "<{ 1 }>", "<dyn Tr + Send>", "<impl Tr + Tr2>", "<Self>", "<&Self>", "<u8>", "<&X>", "<Vec<Self>>", "<&'a Self>", "<Option<&Self>>", "<<Self as Tr>::A>", "<Self, Self>", "<[Self; 3]>"]
     OUT = ["type Output = Self;", "type Output = X;", "type Output = Option<Self>;", "", "type Output = <Self as Tr>::A;", "type Output = (Self, Self); type Other = u8;", "const C: u8 = 1;"]
     WH = ["", " where Self: Sized", " where Option<Self>: Sized, X: Tr<Self>", " where T: Copy", " where for<'b> &'b Self: Sized", " where"]
     GEN = ["", "<T>", "<'a>", "<'a, T: Tr<Self>>", "<const N: usize>", "<T: Copy, U>"]
